@@ -390,6 +390,7 @@ Proof.
   unfold pat_tokens, render_pat, host_text, path_text.
   rewrite render_app, render_join_tokens. f_equal.
   induction (p_path p) as [|s r IH]; [reflexivity|].
-  simpl map. simpl concat. rewrite render_app, IH.
-  change (render (TStatic "/" :: ?x)) with ("/" :: render x). now rewrite render_piece_tokens.
+  simpl map. simpl concat.
+  change (render (TStatic "/" :: ?x)) with ("/" :: render x).
+  rewrite render_app, IH, render_piece_tokens. reflexivity.
 Qed.
